@@ -59,7 +59,7 @@ def _cases(draw, tier):
             paths.append('sets')
         path = draw(st.sampled_from(paths))
         if path == 'spec':
-            spec = list(oc['specific_operands'].values())[0]
+            spec = draw(st.sampled_from(list(oc['specific_operands'].values())))
             alts = list(spec['list'].items())
             ra, rc = bool(spec.get('reverse_argument_order')), bool(spec.get('reverse_bytecode_order'))
         else:
